@@ -650,6 +650,28 @@ def inventory(ctx, F, scope, table, rule="R-INV", kinds=None):
                 if r["_left"] <= 0:
                     continue
                 gok, gwhy = (True, "")
+                # a reviewed "this cannot overflow" argument about a counter holds for the width it was reviewed at: a counter
+                # of fewer than 32 bits needs a machine-checked bound of its own (guards), or the row does not apply
+                if s.kind.startswith("assert:overflow:") and not r.get("narrow_ok"):
+                    try:
+                        aty_ = Env(s.body).op_ty(s.body.term(s.bb)["ops"][0])
+                    except Exception:
+                        aty_ = None
+                    bounded_ = False
+                    if aty_ in ("u8", "i8", "u16", "i16"):
+                        # ... unless the function compares this very counter with a constant the type has room above
+                        tmax_ = {"u8": 255, "i8": 127, "u16": 65535, "i16": 32767}[aty_]
+                        nm_ = s.body.oname(s.body.term(s.bb)["ops"][0], 2).strip("&*")
+                        for bi_ in range(s.body.n):
+                            t_ = s.body.term(bi_)
+                            if t_["k"] != "switch":
+                                continue
+                            m_ = re.match(r"^(?:Gt|Ge|Eq|Lt|Le|Ne)\(\*?%s,(\d+)\)$" % re.escape(nm_), s.body.oname(t_["d"], 3).replace("&", ""))
+                            if m_ and int(m_.group(1)) < tmax_:
+                                bounded_ = True
+                    if aty_ in ("u8", "i8", "u16", "i16") and not bounded_:
+                        why.append(("the operand is of type %s and the function compares it with no constant the type has room above: the reviewed argument was about a counter that cannot reach the end of its type" % aty_, r["reason"]))
+                        continue
                 if r.get("guards"):
                     try:
                         gok, gwhy = verify_guards(F, s, r["guards"])
